@@ -151,7 +151,7 @@ const OTHER_RULES: [&str; 8] = [
 // container serialized in hash order would have >= 24 possible orders.
 // ------------------------------------------------------------------------------------------------
 
-const WIDE: [&[&str]; 22] = [
+const WIDE: [&[&str]; 25] = [
     // 4 fusable rules in one token bucket of `filters`
     &["wide/aa", "wide/bb", "wide/cc", "wide/dd"],
     // one bucket, two fusion groups (the optimizer groups them in a hash map)
@@ -197,6 +197,11 @@ const WIDE: [&[&str]; 22] = [
     &["*$script,domain=s1.com|s2.com", "*$image,domain=s1.com", "*$stylesheet,domain=s1.com|s2.com|s3.com", "*$font,domain=s1.com"],
     &["*$xhr,domain=s1.com|s2.com", "*$media,domain=s2.com", "*$other,domain=s2.com|s3.com", "*$ping,domain=s2.com"],
     &["wide$domain=d1.com|d2.com|d3.com|d4.com", "wide$domain=~d1.com|~d2.com|~d3.com|~d4.com", "wide$domain=d4.com|d3.com|d2.com|d1.com|~x.d1.com", "*$domain=d1.com|d2.com|d3.com|d4.com"],
+    // the same fusable patterns under two tags: two fused rules that differ in their tag only (any
+    // ordering key derived from their content ties)
+    &["adframe$tag=t1", "framead$tag=t1", "adframe$tag=t2", "framead$tag=t2"],
+    &["wideaa$tag=t1", "widebb$tag=t1", "wideaa$tag=t2", "widebb$tag=t2"],
+    &["@@adframe$tag=t1", "@@framead$tag=t1", "@@adframe$tag=t2", "@@framead$tag=t2"],
     // 4 generichide exceptions
     &["@@||g1.com^$generichide", "@@||g2.com^$generichide", "@@||g3.com^$generichide", "@@||g4.com^$generichide"],
 ];
